@@ -507,9 +507,14 @@ void settle(Ctx& c, size_t vi, const Item& last) {
   if (s.is_mem) do_insert(c, vi, last, true);
 }
 
-size_t pick_view(Ctx& c, uint64_t sel) { return static_cast<size_t>(sel % c.views.size()); }
+// selectors 0..6 address a view by position; larger ones prefer a writable wrap when there is one
+size_t pick_view(Ctx& c, uint64_t sel) {
+  if (sel >= MAX_VIEWS) for (size_t k = 0; k < c.views.size(); ++k) { size_t i = (sel + k) % c.views.size(); if (c.views[i].kind == K_WRAP_RW && !c.views[i].ro) return i; }
+  return static_cast<size_t>(sel % c.views.size());
+}
 // next writable view at or after sel (or npos)
 size_t pick_writable(Ctx& c, uint64_t sel) {
+  if (sel >= MAX_VIEWS) { size_t i = pick_view(c, sel); if (!c.views[i].ro) return i; }
   for (size_t k = 0; k < c.views.size(); ++k) { size_t i = (sel + k) % c.views.size(); if (!c.views[i].ro) return i; }
   return static_cast<size_t>(-1);
 }
@@ -725,7 +730,7 @@ void prop(const Case& cs) {
 void prop_accuracy(const Case& cs) {
   vf::own_randomness(7);
   static const double ps[] = {0.3, 0.1, 0.05, 0.01, 3e-3, 1e-3, 1e-4};
-  const uint64_t n = static_cast<uint64_t>(std::min<int64_t>(30000, std::max<int64_t>(200, cs.get("n", 1000))));
+  const uint64_t n = static_cast<uint64_t>(std::min<int64_t>(30000, std::max<int64_t>(500, cs.get("n", 1000))));
   const double p = ps[static_cast<uint64_t>(cs.get("p", 0)) % 7];
   const uint64_t seed = vf::mix64(static_cast<uint64_t>(cs.get("seed", 0)));
   const uint64_t base = vf::mix64(seed ^ 0xACC) << 1;
@@ -773,6 +778,7 @@ void prop_accuracy(const Case& cs) {
   VF_CHECK(static_cast<double>(fp) <= bound, "false-positive-rate", "n=" << n << " target p=" << p << ": " << fp << " false positives in " << N << " fresh probes, bound " << bound
            << " (fill " << static_cast<double>(pc) / s.cfg.cap << ")");
   const double ratio = (static_cast<double>(fp) / N) / p;
+  if (static_cast<double>(fp) > 0.85 * bound) { vf::label("fpr-within-15%-of-bound"); vf::label("near:p=" + std::to_string(p) + ",n=" + std::to_string(n) + ",fp=" + std::to_string(fp) + ",bound=" + std::to_string(bound)); }
   vf::label(ratio <= 0.5 ? "fpr/target<=0.5" : ratio <= 1.0 ? "fpr/target<=1.0" : ratio <= 1.25 ? "fpr/target<=1.25" : "fpr/target>1.25");
   vf::label("accuracy");
   vf::nontrivial();
@@ -781,7 +787,7 @@ void prop_accuracy(const Case& cs) {
 // ---------------------------------------------------------------- generators
 rc::Gen<Case> gen_main() {
   using namespace vf;
-  auto vsel = range(0, 6);
+  auto vsel = range(0, 10);
   auto typ = range(0, T_NTYPES - 1);
   auto opg = choose({
       {5, op3("upd", vsel, typ, raw_gen())},
@@ -789,7 +795,7 @@ rc::Gen<Case> gen_main() {
       {4, op4("bulk", vsel, rc::gen::withSize([](int s) { return range(0, 8 + 6 * s); }), typ, range(0, 2))},
       {2, op3("old", vsel, range(0, 39), range(0, 1 << 20))},
       {3, op3("new", range(0, 7), range(0, 5), range(0, 1 << 24))},
-      {4, op2("wrapmem", range(0, 4), range(0, 2))},
+      {5, op2("wrapmem", range(0, 4), pick({0, 1, 1, 2}))},
       {4, op3("ser", vsel, range(0, 3), pick({0, 0, 8, 1, 16, 19}))},
       {3, op3("union", vsel, vsel, range(0, 63))},
       {2, op3("intersect", vsel, vsel, range(0, 63))},
@@ -806,7 +812,7 @@ rc::Gen<Case> gen_main() {
                     {"k0", rc::gen::weightedOneOf<int64_t>({{2, range(0, 1)}, {5, range(2, 3)}, {1, range(5, 6)}})},
                     {"disc", range(0, 1)},
                     {"rnd", range(1, 1 << 20)}},
-                   oplist(opg, 3, 0.35));
+                   oplist(opg, 3, 0.5));
 }
 
 // large filters: few ops, state compared at the end
@@ -827,7 +833,7 @@ rc::Gen<Case> gen_large() {
 
 rc::Gen<Case> gen_accuracy() {
   using namespace vf;
-  return make_case({{"n", rc::gen::weightedOneOf<int64_t>({{3, range(200, 3000)}, {1, range(3001, 30000)}})},
+  return make_case({{"n", rc::gen::weightedOneOf<int64_t>({{3, range(500, 3000)}, {1, range(3001, 30000)}})},
                     {"p", range(0, 6)}, {"seed", range(0, 1 << 30)}, {"type", range(0, 1)}, {"mem", range(0, 1)}, {"qau", range(0, 1)}},
                    rc::gen::just(std::vector<Op>{}));
 }
